@@ -172,6 +172,13 @@ def state_scalar(rough=True, lo=-2.0, hi=2.0, special=True):
     return st.builds(lambda u: dict(u=u), prof)
 
 
+def state_burgers_spiky():
+    """positive Burgers data with isolated fast cells over a slow background (ratios up to 100): the CFL time step changes by large factors between
+    consecutive iterations while the peaks decay"""
+    v = st.one_of(f(0.02, 0.2), f(0.02, 0.2), f(0.02, 0.2), f(1.0, 2.0))
+    return st.builds(lambda u: dict(u=u), prof_vals(v, 3, 13))
+
+
 def state_euler(rough=True, lnrange=3.0, machmax=3.0, smooth_amp=0.1):
     """lnrho, lnp profiles (natural log) and Mach profile"""
     if rough:
